@@ -456,7 +456,22 @@ def run(chk):
 
     for b in overrides["pull"]:
         key = "C02.R2.pull:%s" % b.key
-        chk.ob(key, "pull override forwards to the inner pull exactly once", lambda b=b: common.forward_check(b), loc=b.span)
+        if self_kind(b) == "forward":
+            chk.ob(key, "pull override forwards to the inner pull exactly once", lambda b=b: common.forward_check(b), loc=b.span)
+        else:
+            def f(b=b):
+                # a typed lookup on anything but a pure wrapper is `the untyped lookup, then a cast`: a value of another type under the key
+                # is an answer (None), it must not make the lookup go on to a later collection's shadowed value
+                inner_pulls = [c for x in [b] + P.closures_of(b) for c in x.calls(normal_only=True) if c.callee.get("trait") == PROPS and c.callee.get("name") == "pull"]
+                if inner_pulls:
+                    return False, ("%s answers a typed lookup by asking its parts for typed values (%d pull calls): when the first collection has "
+                                   "the key with a value of another type, the lookup falls through to a later, shadowed value instead of "
+                                   "returning None" % (b.key, len(inner_pulls))), [], inner_pulls[0].loc
+                gets = [c for c in b.calls(normal_only=True) if c.callee.get("trait") == PROPS and c.callee.get("name") == "get"]
+                if len(gets) != 1 or not common.origin_is_self_derived(b, gets[0].args[0])[0]:
+                    return False, "%s is not `self.get(key)` followed by a cast" % b.key, [], b.span
+                return True, "", [gets[0].loc]
+            chk.ob(key, "a typed lookup is the untyped lookup followed by a cast (a failed cast is an answer, not a miss)", f, loc=b.span)
 
     # R3: default get / pull
     def default_get():
